@@ -176,7 +176,8 @@ class BitArray(Bits):
             raise TypeError(f"Bitstring, integer or string expected. Got {type(value)}.")
         positive_key = key + len(self) if key < 0 else key
         if positive_key < 0 or positive_key >= len(self._bitstore):
-            raise IndexError(f"Bit position {key} out of range.")
+            # The position itself is not put into the message: formatting a huge int raises ValueError (digit limit).
+            raise IndexError("Bit position out of range.")
         self._bitstore[positive_key: positive_key + 1] = value._bitstore
 
     def _setitem_slice(self, key: slice, value: BitsType) -> None:
